@@ -139,6 +139,8 @@ class C07(Prop):
                 # be tempted to apply; exactly representable in single precision)
                 yield {"k": "expect_poly", "kind": "poly", "rows": rows, "r": r, "terms": [{"p": w[:-1] + [(w[-1] + 2 * rng.randrange(2)) % 4], "c": [rng.choice((1, -1, 3, 5)), 0]} for w in (ge[:4] or rows[r:n][:2])] +
                        [{"p": rows[n - 1][:-1] + [1], "c": [0, 3]}], "e": 20, "fine": 30}
+                yield {"k": "expect_poly", "kind": "poly", "rows": rows, "r": r, "terms": [{"p": w[:-1] + [(w[-1] + 2 * rng.randrange(2)) % 4], "c": [rng.choice((1, -1, 3, 5)), 0]} for w in (ge[:4] or rows[r:n][:2])] +
+                       [{"p": rows[n - 1][:-1] + [1], "c": [0, 3]}], "e": 36, "fine": 44, "pkg": "py"}
                 yield {"k": "expect_poly", "kind": "monomial" , "rows": rows, "r": r, "terms": [{"p": (ge[0] if ge else rows[n - 1]), "c": [3, 0]}], "e": 22, "fine": 30, "pkg": "py"}
                 n2, m2, _e2 = self.big[(bi * 5 + 1) % len(self.big)]
                 if n2 == n:
